@@ -1,22 +1,201 @@
 import M3d.Lemmas.Surface
+import M3d.Lemmas.MeshOps
+import M3d.Lemmas.MeshOpsAlg
 /-!
 # C10 — mesh processing keeps closed oriented manifolds closed, oriented, manifold
 
-Property theorems only.  Models: `M3d/Model/Surface.lean`, `M3d/Model/MeshOps.lean`.
+Property theorems only.  Models: `M3d/Model/Surface.lean` (id soups, the predicates and their
+deciders), `M3d/Model/MeshOps.lean` (placement rules over a generic scalar; combinatorial cores
+of the 2-D elimination loops and of the decimation hole filling with the geometric decisions as
+oracle parameters).  The deciders proved correct here are what the driver runs on the REAL
+output of every operation of every generated chain (`harness/cmd/c10`).
 -/
 namespace M3d.C10
-open M3d.Surface
+open M3d.Surface M3d.MeshOps
 
-/-- **The decider run on every real output mesh is a proof-carrying judgement**: it answers
-`true` exactly when the id soup is edge-balanced (every undirected edge is shared by exactly two
-faces with opposite directions: closed + consistently oriented + edge-manifold), every vertex
-fan is one cycle (no pinched vertex) and no face is degenerate. -/
+/-! ## The judgements made on real outputs -/
+
+/-- **The decider run on every real 3-D output is a proved judgement**: it answers `true`
+exactly when the id soup is edge-balanced (every undirected edge is shared by exactly two faces
+traversing it in opposite directions: closed + consistently oriented + edge-manifold), every
+vertex fan is one cycle (no pinched vertex) and no face is degenerate. -/
 theorem closed_manifold_decider_correct (ts : List Tri) :
     closedManifold ts = true ↔ ClosedManifold ts := closedManifold_iff ts
+
+/-- The fan decider (follow the link edges from the first one) finds a cycle through all
+incident faces iff one exists. -/
+theorem fan_decider_correct (es : List Edge) : fanCycle es = true ↔ FanCycle es := fanCycle_iff es
 
 /-- The 2-D decider: every vertex has exactly one incoming and one outgoing segment and no
 segment is a self-loop. -/
 theorem closed_curves_decider_correct (ss : List Seg) :
     closedCurves ss = true ↔ ClosedCurves ss := closedCurves_iff ss
+
+example : closedManifold [(0,1,2),(0,2,3),(0,3,1),(1,3,2)] = true ∧
+    closedManifold [(0,1,2),(0,2,3),(0,3,1)] = false ∧
+    -- two tetrahedra glued at vertex 0: edge-balanced but pinched
+    fanConnected [(0,1,2),(0,2,3),(0,3,1),(1,3,2),(0,4,5),(0,5,6),(0,6,4),(4,6,5)] = false := by decide
+
+/-! ## Operations that only move vertices: Blur, SmoothAreas, MeshSmoother, VoxelSmoother, ARAP, FlattenBase -/
+
+/-- **`relabel_preserves`** — `Blur`, `SmoothAreas`, `MeshSmoother`, `VoxelSmoother`,
+`ARAP.Deform`, `FlattenBase` and the 2-D `Blur`/`Smooth`/`SmoothSq` rebuild the mesh with every
+vertex `v` replaced by its new position `f v` and nothing else.  If `f` is injective on the
+vertices of the mesh the result is again a closed oriented manifold.  (Injectivity is a genuine
+hypothesis — `Blur(1)` maps a regular octahedron onto its centre — and is evaluated by the
+harness on every real output: same number of distinct vertices.) -/
+theorem relabel_preserves {f : Nat → Nat} {ts : List Tri} (hf : InjOn f (vertsAll ts))
+    (h : ClosedManifold ts) : ClosedManifold (relabel f ts) := closedManifold_relabel hf h
+
+/-- Flipping all faces (`InvertNormals`-style) keeps a closed manifold, and is an involution. -/
+theorem reverse_preserves {ts : List Tri} (h : ClosedManifold ts) : ClosedManifold (reverse ts) :=
+  closedManifold_reverse h
+
+theorem reverse_involution (ts : List Tri) : reverse (reverse ts) = ts := reverse_reverse ts
+
+/-- **`blur_rate0_id`**: `Blur(0)` leaves every vertex where it is (3-D and 2-D rule), over any field. -/
+theorem blur_rate0_id {K : Type} [Field K] (c : V3 K) (nbrs : List (V3 K)) (c2 : V2 K) (nbrs2 : List (V2 K)) :
+    blurPoint 0 c nbrs = c ∧ blurPoint2 0 c2 nbrs2 = c2 :=
+  ⟨blurPoint_rate0 c nbrs, blurPoint2_rate0 c2 nbrs2⟩
+
+/-- **`blur_rate1_mean`**: `Blur(1)` puts every vertex at the mean of its neighbours. -/
+theorem blur_rate1_mean {K : Type} [Field K] (c : V3 K) (nbrs : List (V3 K)) (h : nbrs ≠ [])
+    (c2 : V2 K) (nbrs2 : List (V2 K)) :
+    blurPoint 1 c nbrs = (nbrs.foldl V3.add V3.zero).scale (1 / (nbrs.length : K)) ∧
+      blurPoint2 1 c2 nbrs2 = (nbrs2.foldl V2.add V2.zero).scale (1 / (nbrs2.length : K)) :=
+  ⟨blurPoint_rate1 c nbrs h, blurPoint2_rate1 c2 nbrs2⟩
+
+/-! ## Subdivision masks -/
+
+/-- **`loop_masks`**: `β = 3/16` for valence 3, else `3/(8k)`; the old vertex gets `1 - kβ` and
+each of its `k` neighbours `β` (sum 1); an edge point is `3/8, 3/8, 1/8, 1/8` (sum 1). -/
+theorem loop_masks {K : Type} [Field K] [CharZero K] (k : Nat) (a b o1 o2 : V3 K) :
+    (loopBeta 3 : K) = 3 / 16 ∧ (k ≠ 3 → (loopBeta k : K) = 3 / (8 * (k : K))) ∧
+      (1 - (k : K) * loopBeta k) + (k : K) * loopBeta k = 1 ∧
+      (loopEdge a b o1 o2).x = 3/8 * a.x + 3/8 * b.x + 1/8 * o1.x + 1/8 * o2.x ∧
+      (3/8 : K) + 3/8 + 1/8 + 1/8 = 1 :=
+  ⟨loopBeta_three, loopBeta_other k, loop_corner_weights_sum k, by rw [loopEdge_eq], loop_edge_weights_sum⟩
+
+/-- **`chaikin_masks`**: 2-D `Subdivide` cuts every corner at `3/4, 1/4` (sum 1). -/
+theorem chaikin_masks {K : Type} [Field K] [CharZero K] (p q : V2 K) :
+    chaikinPoint p q = ⟨3/4 * p.x + 1/4 * q.x, 3/4 * p.y + 1/4 * q.y⟩ ∧ (3/4 : K) + 1/4 = 1 :=
+  ⟨chaikinPoint_eq p q, chaikin_weights_sum⟩
+
+/-- Both faces at an edge compute the same edge points (`divideSegment` from either end). -/
+theorem subdivide_edge_points_shared {K : Type} [Field K] (c1 c2 : V3 K) (t : K) :
+    lerp3 c1 c2 t = lerp3 c2 c1 (1 - t) := lerp3_symm c1 c2 t
+
+/-- **`subdivide_keeps_volume`** (algebraic core, every `n ≠ 0`): the nested interpolation of
+`SubdivideEdges` lands on the barycentric lattice, and every one of the `n²` sub-triangles of a
+face — upward `(P(i,j),P(i+1,j),P(i+1,j+1))` and downward `(P(i,j),P(i,j-1),P(i+1,j))`, in the
+vertex order the Go code emits — spans exactly `1/n²` of the signed volume of the face: same
+orientation, and the `n²` of them add up to the original signed volume.
+(The summation over the `n²` faces is executed, not proved: the driver checks
+`volume6 out = volume6 in` in exact arithmetic on every exact case.) -/
+theorem subdivide_keeps_volume_partial {K : Type} [Field K] (n i j : K) (hn : n ≠ 0) (a b c : V3 K) :
+    (i ≠ 0 → lerp3 (lerp3 a b (i / n)) (lerp3 a c (i / n)) (j / i) = bary n a b c i j) ∧
+      V3.det (bary n a b c i j) (bary n a b c (i + 1) j) (bary n a b c (i + 1) (j + 1)) = V3.det a b c / (n * n) ∧
+      V3.det (bary n a b c i j) (bary n a b c i (j - 1)) (bary n a b c (i + 1) j) = V3.det a b c / (n * n) :=
+  ⟨fun hi => row_point_eq_bary n i j hn hi a b c, det_up n i j hn a b c, det_down n i j hn a b c⟩
+
+/-- **`colinear_removal_keeps_area`** (shoelace identity): replacing `p→v→n` by `p→n` changes
+twice the enclosed signed area by the doubled area of the triangle `p v n` — zero when `v` is
+colinear with its neighbours. -/
+theorem colinear_removal_keeps_area {K : Type} [Field K] (p v n : V2 K)
+    (hcol : V2.cross ⟨v.x - p.x, v.y - p.y⟩ ⟨n.x - v.x, n.y - v.y⟩ = 0) :
+    V2.cross p v + V2.cross v n = V2.cross p n := by
+  have := cross_bridge p v n
+  rw [hcol] at this
+  exact sub_eq_zero.1 this
+
+/-! ## 2-D vertex removal: `Decimate`, `EliminateColinear` -/
+
+/-- **Removing a vertex with one in- and one out-neighbour and bridging them keeps a closed
+oriented curve set closed and oriented** (`for s in res.Find(v) {res.Remove(s)};
+res.Add(&Segment{n1, n2})`). -/
+theorem vertex_removal_preserves {ss : List Seg} {v p n : Nat} (h : ClosedCurves ss)
+    (hp : prevOf ss v = some p) (hn : succOf ss v = some n) (hpn : p ≠ n) :
+    ClosedCurves (bridge ss v p n) := bridge_closedCurves h (prevOf_mem hp) (succOf_mem hn) hpn
+
+/-- **`eliminate_colinear_terminates` + `_preserves`** for the repaired code (all reads from
+the mesh being edited): for every colinearity oracle, every map iteration order and every closed
+oriented input, the loop terminates within `3·|m| + |eligible| + 1` iterations (measure
+`3·|res| + |eligible|`), the result is closed and oriented and has no new vertex.
+`Safe`: a vertex whose two neighbours coincide is never eligible (its normals are opposite). -/
+theorem eliminate_colinear_terminates_preserves (col3 : Nat → Nat → Nat → Bool)
+    (order : List Nat → Option Nat) (horder : ∀ l x, order l = some x → x ∈ l)
+    (hsafe : Safe (fun cands _ => order cands) (fun _ _ _ _ => false))
+    (m : List Seg) (hm : ClosedCurves m) :
+    ∃ out, elimColinear col3 order m = some out ∧ ClosedCurves out ∧
+      ∀ w ∈ segVertsAll out, w ∈ segVertsAll m := by
+  unfold elimColinear
+  exact removalLoop_spec _ _ _ (fun c _ x h => horder c x h) hsafe _ _ _ hm (by simp [removalFuel])
+
+/-- **`decimate2d_terminates_preserves`**: 2-D `Decimate` terminates for every area ordering and
+every `maxVertices`, returns a closed oriented curve set and introduces no vertex (the
+duplicate-segment guard makes it `Safe` unconditionally). -/
+theorem decimate2d_terminates_preserves (argmin : List Nat → List Seg → Option Nat)
+    (hargmin : ∀ c r x, argmin c r = some x → x ∈ c) (maxV : Nat) (m : List Seg) (hm : ClosedCurves m) :
+    ∃ out, decimate2 argmin maxV m = some out ∧ ClosedCurves out ∧
+      ∀ w ∈ segVertsAll out, w ∈ segVertsAll m := by
+  unfold decimate2
+  refine removalLoop_spec _ _ _ ?_ ?_ _ _ _ hm (by simp [removalFuel])
+  · intro c r x h
+    by_cases hc : c.length > maxV
+    · simp only [hc, ↓reduceIte] at h; exact hargmin c r x h
+    · simp [hc] at h
+  · intro c r x n _ _ _
+    simp
+
+/-- The rectangle `0→1→2→3→4→5→0` whose side `0…3` carries the two extra colinear vertices
+`1, 2` (the failing input of the original code): the repaired loop returns the rectangle
+`0→3→4→5→0`; the loop *as it was* (reads from the original mesh) is still running after 200
+iterations — it re-inserts vertex 1, then 2, then 1, … -/
+example :
+    let m : List Seg := [(0,1),(1,2),(2,3),(3,4),(4,5),(5,0)]
+    let col3 : Nat → Nat → Nat → Bool := fun _ v _ => v == 1 || v == 2
+    elimColinear col3 List.head? m = some [(0,3),(3,4),(4,5),(5,0)] ∧
+      elimColinearBuggy (colAt col3) (fun l => l.headD 0) m 200 [1, 2] m = none := by decide
+
+/-! ## 3-D decimation: filling the hole left by a removed vertex -/
+
+/-- **`fill_loop_boundary`** (faces and vertices; for every chord oracle — i.e. whatever the
+aspect-ratio search picks — and every loop): when `fillLoop` succeeds it returns exactly
+`n - 2` triangles and every corner of every triangle is a vertex of the loop. -/
+theorem fill_loop_faces_and_vertices (chord : List Nat → Option (Nat × Nat)) (fuel : Nat) (l : List Nat)
+    (ts : List Tri) (h : fillLoop chord fuel l = some ts) :
+    ts.length + 2 = l.length ∧ ∀ t ∈ ts, ∀ x ∈ triVerts t, x ∈ l := fillLoop_spec chord fuel l ts h
+
+/-- **`decimate_no_new_vertices`**: the faces `attemptRemoveVertex` inserts only use vertices
+of the loop around the removed vertex, hence vertices already in the mesh. -/
+theorem decimate_no_new_vertices (chord : List Nat → Option (Nat × Nat)) (fuel : Nat) (l : List Nat)
+    (ts : List Tri) (h : fillLoop chord fuel l = some ts) : ∀ x ∈ vertsAll ts, x ∈ l := by
+  intro x hx
+  simp only [vertsAll, List.mem_flatMap] at hx
+  obtain ⟨t, ht, hxt⟩ := hx
+  exact (fillLoop_spec chord fuel l ts h).2 t ht x hxt
+
+/-- **`fill_loop_boundary`, inductive step**: the boundary edges of the two sub-loops `x…y` and
+`y…x` are those of the whole loop plus the chord once in each direction, so gluing two fillings
+whose boundaries are the reversed sub-loops gives a filling whose boundary is the reversed loop
+(the chord edges cancel).  The base case is the single triangle `(l₀, l₂, l₁)`. -/
+theorem fill_loop_boundary_step (x y : Nat) (B D : List Nat) :
+    (cycleEdges (x :: B ++ [y]) ++ cycleEdges (y :: D ++ [x])).Perm
+      (cycleEdges (x :: B ++ y :: D) ++ [(y, x), (x, y)]) := split_loop_edges x y B D
+
+/-- Base case of `fill_loop_boundary`: the triangle returned for a 3-loop has exactly the
+reversed loop as its edges. -/
+theorem fill_loop_boundary_base (a b c : Nat) (chord : List Nat → Option (Nat × Nat)) (fuel : Nat) :
+    ∃ ts, fillLoop chord (fuel + 1) [a, b, c] = some ts ∧
+      (dirEdges ts).Perm ((cycleEdges [a, b, c]).map swap) := by
+  refine ⟨[(a, c, b)], by simp [fillLoop], ?_⟩
+  simp only [dirEdges, List.flatMap_cons, List.flatMap_nil, List.append_nil, triEdges, cycleEdges,
+    List.zip_cons_cons, List.cons_append, List.nil_append, List.zip_nil_right, List.map_cons, List.map_nil, swap]
+  exact List.reverse_perm [(b, a), (c, b), (a, c)]
+
+/-- An octagon filled by successive chords: 6 faces, closed when glued to the reversed fan. -/
+example :
+    let chord : List Nat → Option (Nat × Nat) := fun l => some (0, l.length / 2)
+    (fillLoop chord 10 [1,2,3,4,5,6,7,8]).map List.length = some 6 := by decide
 
 end M3d.C10
